@@ -292,6 +292,13 @@ def gname(g) -> str:
 # --------------------------------------------------------------------------
 # recording subclasses
 # --------------------------------------------------------------------------
+class StepBudget(Exception):
+    """the recorded pass took more steps than any terminating run is expected to need"""
+
+
+STEP_LIMIT = 6000
+
+
 class PassRec:
     """Everything observed during one forward_pass / backward_pass."""
 
@@ -329,6 +336,8 @@ class PassRec:
         # F after the previous step is final only now
         self.snap()
         self.steps.append(st)
+        if len(self.steps) > STEP_LIMIT:
+            raise StepBudget('%s pass exceeded %d steps' % (self.kind, STEP_LIMIT))
 
     def on_swap(self, swap):
         swap = (int(swap[0]), int(swap[1]))
@@ -599,6 +608,11 @@ def run_impl(case):
                 info['nq_before'] = circuit.num_qudits
             try:
                 await p.run(circuit, data)
+            except StepBudget as e:
+                obs['error'] = (name, 'StepBudget', str(e))
+                obs['error_info'] = info
+                obs['budget'] = str(e)
+                return
             except Exception as e:  # noqa
                 obs['error'] = (name, type(e).__name__, str(e)[:200])
                 obs['error_info'] = info
@@ -1067,6 +1081,9 @@ def evaluate_chunk(cases):
     for case in cases:
         try:
             obs = run_impl(case)
+            if obs.get('budget'):
+                prepared.append((case, 'budget', obs['budget']))
+                continue
             lines = model_lines(case, obs)
         except Exception:  # noqa
             import traceback
@@ -1077,6 +1094,10 @@ def evaluate_chunk(cases):
     outs = vf.run_model('sabre', all_lines) if all_lines else []
     res, pos = [], 0
     for case, obs, lines in prepared:
+        if obs == 'budget':
+            res.append(dict(diffs=[], stats={}, error=None, oracle=[
+                ('nontermination', 'every recorded pass empties its front set within %d steps' % STEP_LIMIT, lines)]))
+            continue
         if obs is None:
             res.append(dict(diffs=[('harness raised', 'no exception', lines)], oracle=[], stats={}, error=None))
             continue
@@ -1103,8 +1124,12 @@ def evaluate_all(cases, procs=8):
     a small fork pool above that.  bqskit is imported before forking."""
     if len(cases) <= 1500 or procs <= 1:
         res = []
-        for i in range(0, len(cases), 50):
-            res += evaluate_chunk(cases[i:i + 50])
+        for i in range(0, len(cases), 25):
+            res += evaluate_chunk(cases[i:i + 25])
+            if sum(1 for r in res if r['oracle'] and r['oracle'][0][0] == 'nontermination') >= 3:
+                # three runs that never finish are a failing input each; do not burn the budget on more
+                res += [dict(diffs=[], oracle=[], stats={}, error=None, skipped=True) for _ in cases[len(res):]]
+                break
         return res
     chunks = [cases[i:i + 50] for i in range(0, len(cases), 50)]
     with mp.get_context('fork').Pool(procs) as pool:
@@ -1229,6 +1254,9 @@ def run(ctx: vf.Ctx):
     agg = {}
     failing = []
     for case, res in zip(cases, results):
+        if res.get('skipped'):
+            ctx.count('skipped_after_nontermination')
+            continue
         st = res['stats']
         nontrivial = bool(st.get('swaps_emitted')) or bool(st.get('placement_nonid'))
         ctx.case(case_key(case), nontrivial=nontrivial)
